@@ -13,8 +13,7 @@ import writemodel as wm
 
 PROP = "C16"
 MODEL_TARGETS = ["Corr/WriteShow.vo"]
-THEOREMS = ["C16_data_frame", "C16_header_frame", "C16_version_in_memory", "C16_idempotent_state", "C16_standardize_idem",
-            "C16_truth_values", "C16_units_aligned"]
+THEOREMS = ["C16_data_frame", "C16_curves_frame", "C16_params_frame", "C16_well_frame", "C16_version_frame", "C16_state_depends_on_wrap_only", "C16_vers_untouched", "C16_standardize_idem", "C16_refresh_idem", "C16_write_text_function_of_state", "C16_idempotent_partial", "C16_idempotent_nowrap", "C16_need_created", "C16_need_changed", "C16_need_stop_differs_int", "C16_need_stop_differs_float", "C16_units_aligned", "C16_truth", "C16_truth_texts", "C16_header_frame", "C16_version_in_memory"]
 ASSUMPTIONS = [
     "'to format precision' = the text \"%.5f\" % x that CPython prints (oracle fmtv / fmt_diff)",
     "STRT/STOP/STEP keyword arguments are left to lasio (None), as the property says",
@@ -27,7 +26,7 @@ WOPTS = [dict(), dict(version=1.2), dict(version=2), dict(wrap=True), dict(wrap=
 
 def index_tokens(rng, n):
     kind = rng.choice(["inc", "dec", "irregular", "const"])
-    x = rng.choice([0.0, 100.0, 1670.0, -5.0, 0.125])
+    x = rng.choice([0.0, 100.0, 1670.0, -5.0, 0.125, 10000.0, 25000.5])
     step = rng.choice([0.5, 1.0, 0.1524, 0.25, 10.0])
     out = []
     for i in range(n):
@@ -69,12 +68,16 @@ def gen_case(rng):
                 row[j] = "-999.25"
     text = lasgen.render(s)[0]
     ops = [("R", {})]
-    mode = rng.choice(["read", "read", "scratch", "edit_index", "edit_curve", "edit_header"])
+    mode = rng.choice(["read", "read", "scratch", "edit_index", "edit_index_small", "edit_index_small", "edit_curve", "edit_header"])
     if mode == "scratch":
         ops.append(("EN",))
     elif mode == "edit_index":
         new = index_tokens(rng, nr)
         ops.append(("ES", 0, new))
+    elif mode == "edit_index_small":
+        # a small depth correction (tiny relative to the depth values): still an edit of the index
+        delta = rng.choice([0.05, 0.001, 1e-4, -0.02])
+        ops.append(("ES", 0, [repr(round(float(t) + delta, 6)) for t in idx]))
     elif mode == "edit_curve" and nc > 1:
         ops.append(("ES", nc - 1, [lasgen.num_token(rng, "fixed") for _ in range(nr)]))
     elif mode == "edit_header":
@@ -196,12 +199,13 @@ def oracle(text, ops):
         if created_or_changed or disagrees:
             l2 = lasio.read(outs[0])
             w = {it.mnemonic: it for it in l2.well}
-            exp_strt = float("%.5f" % index[0])
-            exp_stop = float("%.5f" % index[-1])
+            ifmt = (wkw.get("column_fmt") or {}).get(0, wkw.get("fmt", "%.5f"))     # the index column's format
+            exp_strt = float(ifmt % index[0])
+            exp_stop = float(ifmt % index[-1])
             if float(w["STRT"].value) != exp_strt or float(w["STOP"].value) != exp_stop:
                 return "written STRT/STOP %r/%r, index runs %r..%r" % (w["STRT"].value, w["STOP"].value, index[0], index[-1])
-            if len(index) > 1 and ("%.5f" % index[0]) != ("%.5f" % index[-1]):
-                exp_step = float("%.5f" % (index[1] - index[0]))
+            if len(index) > 1 and (ifmt % index[0]) != (ifmt % index[-1]):
+                exp_step = float(ifmt % (index[1] - index[0]))
                 if float(w["STEP"].value) != exp_step:
                     return "written STEP %r, first increment %r" % (w["STEP"].value, exp_step)
             cu = l2.curves[0].unit
